@@ -114,7 +114,7 @@ def _worker(args):
 def check(tier):
     ck = core.Check("C01", tier)
     if tier == "quick":
-        shards, n_grammars, maxlen, n_inputs = 16, 20, 10, 22
+        shards, n_grammars, maxlen, n_inputs = 16, 30, 10, 22
         variants = ["asan"] * 16
     else:
         shards, n_grammars, maxlen, n_inputs = 64, 60, 14, 30
